@@ -362,7 +362,16 @@ class CallListerVisitor(ast.NodeVisitor):
     def visit_ListComp(self, node):
         self.process_comprehension(node, [node.elt])
 
-    visit_SetComp = visit_GeneratorExp = visit_ListComp
+    visit_SetComp = visit_ListComp
+
+    def visit_GeneratorExp(self, node):
+        # lazy: its calls run when it is consumed, like those of a nested
+        # function, after whatever the rest of the body does to the names
+        self.namespace = Namespace(self.namespace)
+        try:
+            self.process_comprehension(node, [node.elt])
+        finally:
+            self.namespace = self.namespace.parent
 
     def visit_DictComp(self, node):
         self.process_comprehension(node, [node.key, node.value])
@@ -463,6 +472,12 @@ class CallListerVisitor(ast.NodeVisitor):
             for kw in node.keywords if kw.arg is not None)
         starargs = get_starargs(node)
         starkwargs = get_kwargs(node)
+        for several in (starargs, starkwargs):
+            if isinstance(several, Unknown):
+                # more than one * or ** operand: none of them is forwarded
+                # as it is, but each is evaluated
+                for operand in several.source:
+                    self.visit(operand)
         varargs = self.resolve_name(starargs, ro=True) if starargs else None
         varkwargs = self.resolve_name(starkwargs, ro=True) if starkwargs else None
         use_varargs, hide_args = \
